@@ -1463,6 +1463,19 @@ EGLPNUM_TYPENAME_QSLIB_INTERFACE int EGLPNUM_TYPENAME_QSchange_senses (
 	p->factorok = 0;							/* the sign of a logical column may have changed */
 	free_cache (p);
 
+	/* "at upper" only exists for ranged rows: a stored basis that keeps it for a
+	 * row that is no longer ranged is rejected by ILLbasis_load later on */
+	if (p->basis && p->basis->rstat)
+	{
+		int i;
+
+		for (i = 0; i < num; i++)
+		{
+			if (sense[i] != 'R' && p->basis->rstat[rowlist[i]] == QS_ROW_BSTAT_UPPER)
+				p->basis->rstat[rowlist[i]] = QS_ROW_BSTAT_LOWER;
+		}
+	}
+
 CLEANUP:
 
 	EG_RETURN (rval);
